@@ -942,6 +942,7 @@ func decodeNodeStatus(pb *internal.NodeStatus, m *pilosa.NodeStatus) {
 	if pb == nil {
 		return
 	}
+	decodeNode(pb.Node, m.Node)
 	m.Indexes = decodeIndexStatuses(pb.Indexes)
 	decodeSchema(pb.Schema, m.Schema)
 }
